@@ -106,6 +106,10 @@ func matcherResolver(bi *BasmInstance) error {
 			secChoices := make([][]string, 0)
 			for k := range sectAlts {
 				secAltsKeys = append(secAltsKeys, k)
+			}
+			// Sort the keys: the numbering of the alternatives must not depend on the map order
+			slices.Sort(secAltsKeys)
+			for _, k := range secAltsKeys {
 				secChoices = append(secChoices, sectAlts[k])
 			}
 
